@@ -43,6 +43,9 @@ type vDisk struct {
 
 var vD *vDisk
 
+// vNoPunch fixes the portable zero-fill removal path (harnesses that do not vary it).
+var vNoPunch bool
+
 type vInfo struct {
 	name string
 	size int64
@@ -66,6 +69,7 @@ type vNopCloser struct{}
 func (vNopCloser) Close() error { return nil }
 
 func (d *vDisk) step(op string) error {
+	vmodel.Boundary() // a file-system call is a lower-layer boundary
 	k := d.calls
 	d.calls++
 	d.log = append(d.log, op)
@@ -106,7 +110,7 @@ func vInstall() *vDisk {
 	// hole punching: either unsupported (portable zero-fill path) or the Linux contract:
 	// fallocate(PUNCH_HOLE) zeroes [off, off+size) and fails with EINVAL when size <= 0
 	punchHole = nil
-	if vrt.Choice(2) == 1 {
+	if (vNoPunch == false) && vrt.Choice(2) == 1 {
 		punchHole = func(f *os.File, off, size int64) error {
 			if size <= 0 {
 				return errors.New("invalid argument")
